@@ -363,3 +363,74 @@ def unit_is_unique_init():
                                 "fields.field_name_index raises InterfaceError iff the name is not a declared field; the Python set of seen names is modelled as a list (membership and add only)",
                                 "a trailing comma ('id,') is accepted by the code; the statement does not forbid it, the contract does not either"]}
     return ProofUnit("checks.IsUniqueCheck.__init__", "IsUniqueCheck.__init__: rule = declared, pairwise distinct field names separated by commas (token-level loop invariant)", ["C09", "C05", "C10"], make, None)
+
+
+def unit_distinct_count_init():
+    import token as TK
+    POS = Tup(INT, INT); TOKD = Tup(INT, STR, POS, POS); TD = sort_of(TOKD); PS = sort_of(POS)
+    ttype = TD.accessor(0, 0); ttext = TD.accessor(0, 1); tend = TD.accessor(0, 3); pline = PS.accessor(0, 0); pcol = PS.accessor(0, 1)
+    def setup(ex, st):
+        first = fresh(TOKD, "first_token")[0]; rule = fresh(STR, "rule")[0]
+        # A-TOK (first token): a NAME token that starts the rule ends on line 1 at a column > 0, and the rule text before that column ends with the name
+        c = pcol(tend(first.z)); t = ttext(first.z)
+        st.pc.append(z3.Implies(ttype(first.z) == TK.NAME, z3.And(pline(tend(first.z)) == 1, c > 0, c <= z3.Length(rule.z), z3.Length(t) > 0, z3.SubString(rule.z, c - z3.Length(t), z3.Length(t)) == t)))
+        names, c2 = fresh(UFList(STR), "available"); st.pc.extend(c2)
+        loc = Ref("Location"); st.heap[loc.oid] = loc_fields(fresh(INT, "line")[0], 0)
+        self = Ref("DistinctCountCheck"); st.heap[self.oid] = {}
+        st.frames[-1].env.update({"self": self, "description": "d", "rule": rule, "available_field_names": names, "location": loc})
+        st.ghost.update({"first": first, "rule": rule, "this": self, "names": names, "tok_failed": False, "lookup": None, "lookup_failed": False})
+    def m_generated_tokens(ex, st, fn, args, kw):
+        it = Ref("TokenIter"); st.heap[it.oid] = {"cursor": 0}
+        ex.obligations.append(Obligation("tokenizes-the-rule", st.pc, z3.BoolVal(args[0] is st.ghost["rule"]), "post", props=["C09"]))
+        yield st, it
+    def tok_next(ex, st, recv, args, kw):
+        for cls in ("TokenError", "SyntaxError"):
+            sb = st.copy(); sb.ghost["tok_failed"] = True; yield sb, Raise(ex.new_builtin_exc(sb, cls, ["cannot tokenize"]))
+        yield st, st.ghost["first"]
+    def m_field_name_index(ex, st, fn, args, kw):
+        st.ghost["lookup"] = (args[0], args[1])
+        known = ex.absfun_s("is_declared_field", [z3.StringSort()], z3.BoolSort())(lift(args[0]).z)
+        for s2, b in ex.fork(st, Sym(BOOL, known)):
+            if b: yield s2, fresh(INT, "idx")[0]
+            else: s2.ghost["lookup_failed"] = True; yield from raise_new(ex, s2, "InterfaceError")
+    def expected_expr(st): 
+        f = st.ghost["first"].z; r = G(st, "rule"); c = pcol(tend(f)); return z3.Concat(z3.StringVal("count"), z3.SubString(r, c, z3.Length(r) - c))
+    def kind0(ex, st, e): return ex.absfun_s("eval_kind", [z3.StringSort(), z3.IntSort()], z3.IntSort())(e, z3.IntVal(0)) == 0
+    def c_bound(ex, st):
+        g = st.ghost; o = st.heap[g["this"].oid]; f = g["first"].z
+        lk = g["lookup"]; d = o.get("_distinct_value_to_count_map")
+        static = lk is not None and lk[1] is g["names"] and isinstance(d, (dict, UFDict))
+        if not static: return Sym(BOOL, z3.BoolVal(False))
+        empty = z3.BoolVal(len(d) == 0) if isinstance(d, dict) else d.size == 0
+        return Sym(BOOL, z3.And(ttype(f) == TK.NAME, lift(o["_field_name_to_count"]).z == ttext(f), lift(lk[0]).z == ttext(f), lift(o["_expression"]).z == expected_expr(st), kind0(ex, st, expected_expr(st)), empty))
+    def c_refused(ex, st):
+        g = st.ghost; f = g["first"].z
+        return Sym(BOOL, z3.Or(z3.BoolVal(bool(g["tok_failed"]) or bool(g["lookup_failed"])), g["names"].length == 0, ttype(f) != TK.NAME, z3.Not(kind0(ex, st, expected_expr(st)))))
+    def make(ctx):
+        c = Contract("checks.DistinctCountCheck.__init__", setup,
+                returns=[Clause(c_bound, "counts-the-declared-field-named-first-in-the-rule-the-expression-is-'count'-plus-the-rest-of-the-rule-it-evaluates-to-a-bool-and-nothing-is-counted-yet", props=["C05", "C09"])],
+                raises={"InterfaceError": [Clause(c_refused, "refused-only-for-an-untokenizable-rule-a-rule-not-starting-with-a-declared-field-name-or-a-rest-that-is-no-boolean-expression", props=["C09", "C05"])]},
+                expect=["return", "InterfaceError"], raises_only_props=["C05", "C09", "C10"])
+        return {"contract": c, "callees": {"checks.generated_tokens": ModelContract(m_generated_tokens), "_tools.generated_tokens": ModelContract(m_generated_tokens), "ref:TokenIter.__next__": tok_next,
+                                           "fields.field_name_index": ModelContract(m_field_name_index), "builtin:eval": m_eval},
+                "assumptions": ["A-TOK (first token): a leading NAME token ends on line 1 at column c > 0 with rule[c-len(name):c] == name (audited: checks.A-TOK-first-token)",
+                                "A-EVAL: eval(expr, {}, {'count': n}) is an abstract function of (expr, n): a bool, another value or an exception",
+                                "fields.field_name_index is used through its verified contract (fields.field_name_index)"]}
+    return ProofUnit("checks.DistinctCountCheck.__init__", "DistinctCountCheck.__init__: field to count = leading name of the rule (declared), expression = 'count' + rest, test evaluation, fresh state", ["C05", "C09", "C10"], make, None)
+
+
+def unit_audit_first_token():
+    """audit of the A-TOK clause used by DistinctCountCheck.__init__"""
+    def run(ctx):
+        import token as TK
+        from cutplace import _tools
+        names = ["a", "kind", "customer_id", "x1", "_y", "Count", "count"]; rests = ["", " < 3", "<3", "  >=  10", " == 0", "!=1", " < 3 and count > 1", " "]
+        def cases():
+            for n in names:
+                for r in rests: yield n + r
+        def check(rule):
+            t = next(_tools.generated_tokens(rule))
+            ok = t[0] == TK.NAME and t[3][0] == 1 and t[3][1] > 0 and rule[t[3][1] - len(t[1]):t[3][1]] == t[1]
+            return None if ok else {"expected": "leading NAME token with end (1, c), rule[c-len:c] == name", "observed": repr(t)}
+        return [sweep("A-TOK/first token of a distinct-count rule", cases(), check, "audit", "7 field names x 8 rule tails", function="_tools.generated_tokens", unit="checks.A-TOK-first-token")]
+    return NativeUnit("checks.A-TOK-first-token", "audit of the A-TOK clause (first token position) used by DistinctCountCheck.__init__", ["C05", "C09"], run, kind="audit")
